@@ -216,7 +216,7 @@ func (spCtx *serverPoolContext) prepareRequest(svr *Server, ctx stdcontext.Conte
   ghost at call[1] NewRequestWithContext: gFwdMethod := method
   ghost at call[1] NewRequestWithContext: gFwdURL := url
   ghost at call[1] NewRequestWithContext: gFwdBody := ifaceVal(body)
-  ghost at call[1] NewRequestWithContext: gFwdCtx := ifaceVal(ctx)
+  ghost at call[1] NewRequestWithContext: gFwdCtx := ifaceVal(nctx)
   ghost at call[1] NewRequestWithContext: gNewReqHost := (r == nil ? "" : r.Host)
   ghost at call[1] NewRequestWithContext: gNewReqLen := (r == nil ? 0 : r.ContentLength)
   ghost at call[1] cloneHeader: gClonedFrom := ref(in)
